@@ -166,7 +166,7 @@ func main() {
 		b64 := refage.B64
 		full := strings.Repeat("A", 64)
 		common := []msg{
-			{"error", st("error", []string{"internal"}, []byte("boom: plugin failed")), ""},
+			{"error", st("error", []string{"internal"}, []byte("boom: disk 100% full (%s %d %v)")), ""},
 			{"msg", st("msg", nil, []byte("hello")), "display"},
 			{"request-secret", st("request-secret", nil, []byte("PIN")), "request"},
 			{"request-public", st("request-public", nil, []byte("name")), "request"},
@@ -176,6 +176,7 @@ func main() {
 			{"confirm-3-args", st("confirm", []string{"QQ", "QQ", "QQ"}, nil), "confirm"},
 			{"confirm-bad-base64", st("confirm", []string{"!!!"}, []byte("p")), "confirm"},
 			{"confirm-bad-no", st("confirm", []string{"QQ", "Q"}, []byte("p")), "confirm"},
+			{"confirm-bad-yes-good-no", st("confirm", []string{"!!!", "Tm8"}, []byte("p")), "confirm"},
 			{"unknown", st("frobnicate", []string{"x"}, []byte("y")), ""},
 			{"grease", st("grease-1a2b", nil, nil), ""},
 			{"framing-noncanonical-body", "-> msg\nQR\n", ""},
